@@ -246,6 +246,12 @@ class ExecExpr(ExecCore):
                 untouched = attr not in st.heap or st.heap[attr].eq(z3.Const('H0_' + attr, FieldArr))
                 term = st.field(attr)[va(base.term)]
                 st.assume(shape(st, term, ft, pre=in_pre(untouched, va(base.term))))
+                ov = getattr(self.contract, 'field_types', {}).get(attr) if getattr(self, 'contract', None) is not None else None
+                if ov is not None:
+                    self._narrow_k = getattr(self, '_narrow_k', 0) + 1
+                    self.oblige(st, shape(st, term, ov), 'narrow[%s]#%d' % (attr, self._narrow_k), 'pre-of-callee')
+                    st.assume(shape(st, term, ov))
+                    ft = ov
                 if isinstance(ft, Ty.TFunc) and ft.recv_field:
                     # a bound method stored in a field; its receiver is another field of the same object
                     rt = field_type(ty.cls, ft.recv_field)
